@@ -18,7 +18,9 @@ RULE = ("case = seeded (field sequence from the full generator incl. bit-field r
         "add_field steps - single adds that commit immediately or batches inside start_update() - with extra no-op commits and "
         "USES of the intermediate class between steps: parse, default-construct, dumps, len, ==). Three routes are compared: "
         "(A) top-level 'struct R {..};' (pre-registered empty, extended, committed by the parser), (B) one-piece "
-        "'typedef struct {..} R;', (C) add_field/commit history. evaluations = route comparisons (layout + behaviour on inputs). "
+        "'typedef struct {..} R;', (C) add_field/commit history; for ~30% of the fixed-size cases additionally (D) one-shot "
+        "_make_struct([Field(.., offset=)]) against (E) an add_field(.., offset=) history with EXPLICIT offsets (forward gaps, "
+        "offset 0 or an earlier field's offset on a later field). evaluations = route comparisons (layout + behaviour on inputs). "
         "distinct_nontrivial = distinct (field-kind sequence digest, split pattern, kinds of intermediate use) with >= 2 commits.")
 ASSUMPTIONS = [
     "Instances created from an intermediate class are not required to follow the final layout (the statement speaks of the class's end state).",
@@ -55,8 +57,14 @@ def gen_case(rng: random.Random, tier: str):
         uses = [rng.choice(["parse", "default", "dumps", "len", "eq", "parse_fail", "array_of"]) for _ in range(rng.randint(0, 3))]
         steps.append({"n": k, "mode": mode, "uses": uses, "extra_commit": rng.random() < 0.2})
         i += k
+    # explicit field offsets (Python API only: Field(..., offset=) / add_field(..., offset=)): per field None (computed),
+    # a forward gap, or an absolute position at/before an earlier field (0 = the structure start)
+    offsets = None
+    if rng.random() < 0.3:
+        offsets = [rng.choice([None, None, {"gap": rng.randint(0, 5)}, {"gap": rng.randint(0, 5)}, {"abs0": True}, {"back": rng.randint(1, 3)}])
+                   for _ in range(n + 1)]
     return {"cfg": cfg, "defs": defs, "selfref": rng.randrange(n + 1) if rng.random() < 0.3 else None, "steps": steps,
-            "data_seed": rng.getrandbits(32), "pre_use": rng.random() < 0.3, "nocompile": rng.random() < 0.2}
+            "data_seed": rng.getrandbits(32), "pre_use": rng.random() < 0.3, "nocompile": rng.random() < 0.2, "offsets": offsets}
 
 
 def _root_text(defs, name, selfref, typedef=False, nocompile=False):
@@ -296,6 +304,73 @@ def run_case(case, stats):
     behC = _behaviour(st, inputs)
     if behC != behA:
         raise Violation("behaviour", "incremental_vs_declared", _bdiff(behA, behC) + f" history {pattern}")
+
+    # ---- routes D/E: the same fields with EXPLICIT offsets, one-shot _make_struct([Field(.., offset=)]) against an
+    # add_field(.., offset=) history with the same split
+    specs = case.get("offsets")
+    tmp_offs = [f.offset for f in csC.Tmp.__fields__]
+    if specs and sr is None and not is_union and all(o is not None for o in tmp_offs) and not any(b for _, _, b in harvested):
+        from dissect.cstruct.types.structure import Field
+
+        offs = []
+        shift = 0
+        for i_, o in enumerate(tmp_offs):
+            sp = specs[i_ % len(specs)]
+            if sp is None:
+                offs.append(None)
+            elif "gap" in sp:
+                shift += sp["gap"]
+                offs.append(o + shift)
+            elif "abs0" in sp:
+                offs.append(0)
+            else:
+                offs.append(tmp_offs[max(0, i_ - sp["back"])])
+        if all(o is None for o in offs):
+            return
+        stats.count("probe.explicit_offsets_compared")
+        if any(o == 0 for i_, o in enumerate(offs) if i_):
+            stats.count("probe.explicit_offset_zero_on_later_field")
+
+        def build(cs_, incremental):
+            if not incremental:
+                t_ = cs_._make_struct("R", [Field(nm_, ty_, bits=b_, offset=o_) for (nm_, ty_, b_), o_ in zip(harv, offs)], align=cfg["align"])
+                return compiler.compile(t_) if cfg["compiled"] and not nc else t_
+            t_ = cs_._make_struct("R", [], align=cfg["align"])
+            if cfg["compiled"] and not nc:
+                t_ = compiler.compile(t_)
+            k_ = 0
+            for step in steps:
+                chunk = list(zip(harv, offs))[k_: k_ + step["n"]]
+                k_ += step["n"]
+                if step["mode"] == "single":
+                    for (nm_, ty_, b_), o_ in chunk:
+                        t_.add_field(nm_, ty_, bits=b_, offset=o_)
+                else:
+                    with t_.start_update():
+                        for (nm_, ty_, b_), o_ in chunk:
+                            t_.add_field(nm_, ty_, bits=b_, offset=o_)
+                for u in step["uses"]:
+                    _use(t_, u, inputs[0] if inputs else b"\x00" * 8)
+            return t_
+
+        out = []
+        for incremental in (False, True):
+            cs_ = gen.make_cs(cfg)
+            cs_.load(htext + tmptext, compiled=cfg["compiled"], align=cfg["align"])
+            harv = [(f.name, f.type, f.bits) for f in cs_.Tmp.__fields__]
+            try:
+                t_ = build(cs_, incremental)
+                out.append(("ok", _sig(t_, "R"), _behaviour(t_, inputs + [bytes(range(1, 80))])))
+            except Exception as ex:  # noqa: BLE001
+                out.append(("exc", type(ex).__name__, str(ex)[:80]))
+        stats.count("evaluations")
+        if out[0][0] != out[1][0] or (out[0][0] == "exc" and out[0][1] != out[1][1]):
+            raise Violation("offsets", "one_shot_vs_incremental_outcome", f"explicit offsets {offs}: one-shot {out[0][:2] if out[0][0] == 'exc' else 'ok'}, add_field history {out[1][:2] if out[1][0] == 'exc' else 'ok'}")
+        if out[0][0] == "ok":
+            if out[0][1] != out[1][1]:
+                raise Violation("offsets", "layout_one_shot_vs_incremental", f"explicit offsets {offs}: " + _diff("_make_struct with Field(offset=)", out[0][1], f"add_field(offset=) history {pattern}", out[1][1]))
+            if out[0][2] != out[1][2]:
+                raise Violation("offsets", "behaviour_one_shot_vs_incremental", f"explicit offsets {offs}: " + _bdiff(out[0][2], out[1][2]))
 
 
 def _retarget(cs, t, st):
